@@ -24,8 +24,10 @@ Proof. exact claimer_claim_same_vis. Qed.
 Theorem C04_unclaim_interleaving : forall d items flt r d', unclaim_inter d items flt = (r, d') -> same_vis d' d.
 Proof. exact unclaim_inter_same_vis. Qed.
 
-Theorem C04_history : forall ops st, NoDup (ids (fst st)) -> same_vis (fst (fold_left sstep ops st)) (fst st).
-Proof. exact shistory_same_vis. Qed.
+(* every history of the six non-edit comment calls (claim_/unclaim_ leading/trailing/interleaving); an
+   auto_claim_comments is a sequence of such calls *)
+Theorem C04_history : forall ops st, NoDup (ids (fst st)) -> same_vis (fst (fold_left cstep ops st)) (fst st).
+Proof. exact chistory_same_vis. Qed.
 
 Theorem C04_text_unchanged : forall d' d, same_vis d' d ->
   (forall t, In t d -> is_ph t = true -> t_text t = []) -> txt d' = txt d.
